@@ -1,6 +1,7 @@
 package props
 
 import (
+	"encoding/json"
 	"testing"
 
 	"github.com/db47h/decimal"
@@ -404,3 +405,11 @@ var propC01 = &h.Prop[C01Case]{ID: "C01", Rule: ruleC01, Gen: genC01, Check: che
 
 func TestC01(t *testing.T)       { propC01.Search(t) }
 func TestC01Replay(t *testing.T) { propC01.Replay(t) }
+
+func mustJSON(v interface{}) []byte {
+	b, err := json.Marshal(v)
+	if err != nil {
+		panic(err)
+	}
+	return b
+}
